@@ -2,7 +2,7 @@
 From Coq Require Import Lia ZifyBool ZifyNat String.
 From Ldlm Require Import Model.Base Model.Err Model.Seq Model.Track Proofs.SeqDefs Proofs.SeqLemmasKey Proofs.SeqInvBase
   Proofs.SeqInvOps Proofs.SeqInvTime Proofs.SeqInv Proofs.SeqTimeBase Proofs.SeqTime1
-  Proofs.TrackPBase Proofs.TrackPOrder Proofs.TrackPRel Proofs.TrackPStep Proofs.TrackPTR Proofs.TrackPProbe.
+  Proofs.TrackPBase Proofs.TrackPOrder Proofs.TrackPRel Proofs.TrackPStep Proofs.TrackPTR Proofs.TrackPMem Proofs.TrackPProbe.
 From RecordUpdate Require Import RecordSet.
 Import RecordSetNotations.
 Local Open Scope Z_scope.
@@ -26,11 +26,11 @@ Section acquire.
   Lemma track_acquire_ok blocking wid sid name key size lt wt s s' o t :
     Inv cfg s → st_shut s = false → (∀ n, ¬ livel (st_locks s) n key) →
     opt_neg lt = false → (blocking = true → opt_neg wt = false) →
-    TR X cfg s t →
+    TR X cfg s t → MI cfg s (t_mem t) →
     srv_acquire cfg blocking wid sid name key (default 1 size) lt wt s = (s', o) →
     TR X cfg s' (t_acquire cfg i blocking wid (Some sid) name size lt wt o t).
   Proof.
-    intros HI Hsh Hfresh Hlt Hwt HT Ha. set (sz := default 1 size) in *.
+    intros HI Hsh Hfresh Hlt Hwt HT HMI Ha. set (sz := default 1 size) in *.
     pose proof (tr_holds _ _ _ _ HT) as HH.
     assert (expected_refusal blocking (Some sid) name size lt wt t =
             if bool_decide (name = []) then Some ESrvEmptyName else
@@ -59,6 +59,13 @@ Section acquire.
     { rewrite Eexp, Hszb. destruct (known_size name t) as [k|] eqn:Ek; [|done].
       destruct (TR_known_size X cfg s t HI HT _ _ Ek) as (ob' & Ho' & Hk). rewrite bool_decide_eq_true_2; [done|].
       destruct Hob as [(o0 & Ho0 & ->)|[Hn _]]; [|congruence]. simplify_eq. done. }
+    assert (match mem_lookup name (t_mem t) with
+            | Some (msz, last) => bool_decide (msz = sz) || (c_gc_minidle cfg <? t_now t - last)
+            | None => true end = true) as Hmem_ok.
+    { destruct (mem_lookup name (t_mem t)) as [[msz last]|] eqn:El; [|done]. destruct (HMI _ _ _ El) as [_ HQ].
+      rewrite (tr_now _ _ _ _ HT). destruct Hob as [(o0 & Ho0 & ->)|[Hn _]].
+      - rewrite Ho0 in HQ. destruct HQ as [<- _]. simpl in Hobsz. by rewrite bool_decide_eq_true_2.
+      - rewrite Hn in HQ. apply orb_true_iff. right. lia. }
     set (L := st_locks s) in *. set (L1 := <[name := ob]> L).
     assert (∀ c, intab L1 c ↔ intab L c) as Hi1.
     { intros c. destruct Hob as [(o0 & Ho0 & ->)|[Hn ->]]; [by apply intab_touch|by apply intab_create]. }
@@ -80,7 +87,7 @@ Section acquire.
     unfold can_acquire in Ha. cbn [st_locks st_waiters set] in Ha.
     destruct (bool_decide (Z.of_nat (length (lo_keys ob)) < lo_size ob) && bool_decide (name_waiters name (st_waiters s) = [])) eqn:Hcan.
     - (* granted *)
-      injection Ha as <- <-. simpl. rewrite ?flag_true by done. rewrite Eexp'. fold sz.
+      injection Ha as <- <-. simpl. rewrite ?flag_true by done. rewrite Eexp'. fold sz. rewrite Hmem_ok. cbn [flag].
       apply andb_true_iff in Hcan as [Hc1%bool_decide_eq_true Hc2].
       rewrite flag_true by (rewrite Hcount; lia). simpl.
       unfold add_key. cbn [st_locks set]. rewrite lookup_insert.
@@ -110,12 +117,12 @@ Section acquire.
           [rewrite bool_decide_eq_true_2 by done|rewrite bool_decide_eq_false_2 by lia]; done. }
       destruct blocking.
       + (* parked *)
-        injection Ha as <- <-. simpl. rewrite ?flag_true by done. rewrite Eexp'. fold sz. rewrite Hfree. simpl.
+        injection Ha as <- <-. simpl. rewrite ?flag_true by done. rewrite Eexp'. fold sz. rewrite Hmem_ok. cbn [flag]. rewrite Hfree. simpl.
         split; simpl; [apply (tr_now _ _ _ _ HT)|apply (tr_pending _ _ _ _ HT)|exact HH1| |apply (tr_fail _ _ _ _ HT)].
         apply Forall2_app; [apply (tr_waiters _ _ _ _ HT)|]. constructor; [|constructor].
         unfold WR, wait_dl. simpl. rewrite (tr_now _ _ _ _ HT). done.
       + (* refused: busy *)
-        injection Ha as <- <-. simpl. rewrite ?flag_true by done. rewrite Eexp'. fold sz. rewrite Hfree. simpl.
+        injection Ha as <- <-. simpl. rewrite ?flag_true by done. rewrite Eexp'. fold sz. rewrite Hmem_ok. cbn [flag]. rewrite Hfree. simpl.
         split; simpl; [apply (tr_now _ _ _ _ HT)|apply (tr_pending _ _ _ _ HT)|exact HH1|apply (tr_waiters _ _ _ _ HT)|apply (tr_fail _ _ _ _ HT)].
   Qed.
 
@@ -130,11 +137,11 @@ Section acquire.
   Proof. intros HI Hk n Hl. apply Hk. by eapply (inv_used_live _ _ HI). Qed.
 
   Lemma track_trylock_ok sid name size lt key s s' o t :
-    Inv cfg s → st_shut s = false → key ∉ st_used s → TR X cfg s t →
+    Inv cfg s → st_shut s = false → key ∉ st_used s → TR X cfg s t → MI cfg s (t_mem t) →
     srv_trylock cfg sid name size lt key s = (s', o) →
-    TR X cfg s' (track_step cfg i (ETryLock sid name size lt key) o t).
+    TR X cfg s' (track_step0 cfg i (ETryLock sid name size lt key) o t).
   Proof.
-    intros HI Hsh Hk HT Hs. simpl. unfold srv_trylock in Hs. destruct sid as [sid|].
+    intros HI Hsh Hk HT HMI Hs. simpl. unfold srv_trylock in Hs. destruct sid as [sid|].
     2:{ injection Hs as <- <-. unfold t_acquire. flagsolve. }
     destruct (opt_neg lt) eqn:Hlt.
     { injection Hs as <- <-. unfold t_acquire, expected_refusal. simpl. rewrite Hlt. flagsolve. }
@@ -145,11 +152,11 @@ Section acquire.
   Qed.
 
   Lemma track_lock_ok wid sid name size lt wt key s s' o t :
-    Inv cfg s → st_shut s = false → key ∉ st_used s → TR X cfg s t →
+    Inv cfg s → st_shut s = false → key ∉ st_used s → TR X cfg s t → MI cfg s (t_mem t) →
     srv_lock cfg wid sid name size lt wt key s = (s', o) →
-    TR X cfg s' (track_step cfg i (ELock wid sid name size lt wt key) o t).
+    TR X cfg s' (track_step0 cfg i (ELock wid sid name size lt wt key) o t).
   Proof.
-    intros HI Hsh Hk HT Hs. simpl. unfold srv_lock in Hs. destruct sid as [sid|].
+    intros HI Hsh Hk HT HMI Hs. simpl. unfold srv_lock in Hs. destruct sid as [sid|].
     2:{ injection Hs as <- <-. unfold t_acquire. flagsolve. }
     destruct (opt_neg lt) eqn:Hlt.
     { injection Hs as <- <-. unfold t_acquire, expected_refusal. simpl. rewrite Hlt. flagsolve. }
